@@ -256,6 +256,19 @@ func (g *Gen) FaultProgram(opts FaultOpts) *Chunk {
 		CallSN("emit", Str("post:wrap-after-refused"), CallN("pcall", Call(Dot(N("coroutine"), "wrap"), Fn(nil, false, Blk(
 			CallSN("emit", Str("post:self-resume"), &EParen{X: Call(Dot(N("coroutine"), "resume"), Call(Dot(N("coroutine"), "running")))}),
 			CallSN("error", &ETable{Items: []TItem{{Kind: TName, Name: "code", Val: Num(3)}}})))))),
+		// a number as the error value arrives as that number (the position prefix is for strings)
+		CallSN("emit", Str("post:number-error-value"), CallN("pcall", N("error"), Num(42)), CallN("pcall", Fn(nil, false, Blk(CallSN("error", Num(4.5))))),
+			CallN("select", Num(2), CallN("pcall", Fn(nil, false, Blk(CallSN("error", Num(7), Num(2))))))),
+		// a Go panic in a host function called inside a coroutine is that coroutine's error: the resume /
+		// the protected call around the wrap call reports it, the coroutine is dead afterwards and the
+		// resumer is the running thread again
+		Local1("pth", &ENil{}),
+		Local1("pw", Call(Dot(N("coroutine"), "wrap"), Fn(nil, false, Blk(Assign1(N("pth"), Call(Dot(N("coroutine"), "running"))),
+			&SCall{Call: Call(Dot(N("coroutine"), "yield"), Num(1))}, CallSN("hostpanic"), Return(Num(2)))))),
+		CallSN("emit", Str("post:gopanic-in-wrap"), Call(N("pw")), &EParen{X: CallN("pcall", N("pw"))}),
+		CallSN("emit", Str("post:gopanic-in-wrap-status"), Call(Dot(N("coroutine"), "status"), N("pth")), &EParen{X: Call(Dot(N("coroutine"), "resume"), N("pth"))}, &EParen{X: CallN("pcall", N("pw"))}),
+		Local1("pco", Call(Dot(N("coroutine"), "create"), Fn(nil, false, Blk(CallSN("hostpanic"))))),
+		CallSN("emit", Str("post:gopanic-in-resume"), &EParen{X: Call(Dot(N("coroutine"), "resume"), N("pco"))}, Call(Dot(N("coroutine"), "status"), N("pco")), Call(Dot(N("coroutine"), "running"))),
 		CallSN("emit", Str("post:pcall-ok"), CallN("pcall", Fn(nil, false, Blk(Return(Num(1), Num(2)))))),
 		CallSN("emit", Str("post:select"), CallN("select", Str("#"), Num(1), &ENil{}, &ENil{})),
 	)}})
